@@ -575,6 +575,58 @@ func mustPassInIteration(target ssa.Instruction, eval func(cond ssa.Value) (know
 	if start == nil {
 		return "loop body not found"
 	}
+	// a condition computed into a named boolean first (a && b, a || b, possibly hoisted out of the loop) has a value
+	// when all edges that are possible under the known conditions agree
+	var evalNamed func(c ssa.Value, at *ssa.BasicBlock, d int) (bool, bool)
+	evalNamed = func(c ssa.Value, at *ssa.BasicBlock, d int) (bool, bool) {
+		if d > 6 {
+			return false, false
+		}
+		c2, pol := normCond(c, true)
+		if known, val := eval(c2); known {
+			return val == pol, true
+		}
+		if k, isK := constBool(c2); isK {
+			return k == pol, true
+		}
+		ph, isPhi := c2.(*ssa.Phi)
+		if !isPhi {
+			return false, false
+		}
+		// a && b: phi [false (a false), b]; a || b: phi [true (a true), b]. The edge from the block that evaluated a is
+		// possible only if a has the short-circuit value
+		res, have := false, false
+		for i, e := range ph.Edges {
+			pred := ph.Block().Preds[i]
+			// is the edge feasible? the predecessor ends in "if a" choosing between short-circuit and evaluating b
+			if ifi, isIf := pred.Instrs[len(pred.Instrs)-1].(*ssa.If); isIf {
+				if av, known := evalNamed(ifi.Cond, pred, d+1); known {
+					toPhi := pred.Succs[0] == ph.Block()
+					if (toPhi && !av) || (!toPhi && pred.Succs[1] == ph.Block() && av) {
+						continue // this edge is not taken
+					}
+					if pred.Dominates(ph.Block()) {
+						// the first operand decides (short circuit): this edge is the one taken
+						if ev, known := evalNamed(e, pred, d+1); known {
+							return ev == pol, true
+						}
+					}
+				}
+			}
+			ev, known := evalNamed(e, pred, d+1)
+			if !known {
+				return false, false
+			}
+			if have && ev != res {
+				return false, false
+			}
+			res, have = ev, true
+		}
+		if !have {
+			return false, false
+		}
+		return res == pol, true
+	}
 	escape := ""
 	seen := map[*ssa.BasicBlock]bool{}
 	var walk func(x *ssa.BasicBlock, steps int)
@@ -595,7 +647,7 @@ func mustPassInIteration(target ssa.Instruction, eval func(cond ssa.Value) (know
 		seen[x] = true
 		if ifi, ok := x.Instrs[len(x.Instrs)-1].(*ssa.If); ok {
 			c, pol := normCond(ifi.Cond, true)
-			if known, val := eval(c); known {
+			if val, known := evalNamed(c, x, 0); known {
 				if val == pol {
 					walk(x.Succs[0], steps+1)
 				} else {
